@@ -149,6 +149,18 @@ func verifyCheckdigit(data, checkDigit string) error {
 	return nil
 }
 
+// the composite check digit is never 'unset': it must be the computed digit
+func verifyCompositeCheckdigit(data, checkDigit string) error {
+	expCD, err := calcCheckdigit(data)
+	if err != nil {
+		return fmt.Errorf("[verifyCompositeCheckdigit] error: %w", err)
+	}
+	if expCD != checkDigit {
+		return fmt.Errorf("[verifyCompositeCheckdigit] Checkdigit mismatch (Exp:%s, Act:%s, Data:%s)", expCD, checkDigit, data)
+	}
+	return nil
+}
+
 func decodeTD1(mrz string) (*MRZ, error) {
 	slog.Debug("decodeTD1", "MRZ", mrz)
 
@@ -210,7 +222,7 @@ func decodeTD1(mrz string) (*MRZ, error) {
 	out.OptionalData2 = DecodeValue(optionalData2)
 
 	// composite check digit
-	if err := verifyCheckdigit(mrz[5:30]+mrz[30:37]+mrz[38:45]+mrz[48:59], mrz[59:60]); err != nil {
+	if err := verifyCompositeCheckdigit(mrz[5:30]+mrz[30:37]+mrz[38:45]+mrz[48:59], mrz[59:60]); err != nil {
 		return nil, err
 	}
 
@@ -286,7 +298,7 @@ func decodeTD2(mrz string) (*MRZ, error) {
 	out.OptionalData = DecodeValue(optionalData)
 
 	// composite check digit
-	if err := verifyCheckdigit(mrz[36:46]+mrz[49:56]+mrz[57:71], mrz[71:72]); err != nil {
+	if err := verifyCompositeCheckdigit(mrz[36:46]+mrz[49:56]+mrz[57:71], mrz[71:72]); err != nil {
 		return nil, err
 	}
 
@@ -348,7 +360,7 @@ func decodeTD3(mrz string) (*MRZ, error) {
 	}
 
 	// composite check digit
-	if err := verifyCheckdigit(mrz[44:54]+mrz[57:64]+mrz[65:87], mrz[87:88]); err != nil {
+	if err := verifyCompositeCheckdigit(mrz[44:54]+mrz[57:64]+mrz[65:87], mrz[87:88]); err != nil {
 		return nil, err
 	}
 
